@@ -1215,7 +1215,7 @@ func (e *Engine) zeroGhosts() []string {
 func (e *Engine) hookMods(fn *ssa.Function, ms *ModSet) {
 	if ct := e.contracts[e.shortName(fn)]; ct != nil {
 		for _, h := range ct.Ats {
-			if h.Kind == "set" {
+			if h.Kind == "set" || h.Kind == "pre" {
 				ms.heaps["gh:"+h.Ghost] = true
 			}
 		}
